@@ -312,6 +312,12 @@ func c12X1(l *core.Ledger, r *rt) {
 					return true
 				}
 				c, ok := b.V.(*ssa.Call)
+				if b.Kind == sx.KCall && ok && c.Call.StaticCallee() != nil && strings.HasPrefix(sx.StaticCalleeName(&c.Call), "slices.Clone") && len(c.Call.Args) == 1 {
+					// a snapshot of the pool: slices.Clone(m.nodes)
+					return sx.All(sx.Origins(c.Call.Args[0]), func(x sx.Origin) bool {
+						return x.Kind == sx.KField && x.Field != nil && x.Field.Name() == "nodes"
+					})
+				}
 				return b.Kind == sx.KCall && ok && c.Call.StaticCallee() != nil && c.Call.StaticCallee().Name() == "Nodes"
 			})
 		})
